@@ -184,3 +184,11 @@ Proof.
   cbv zeta.
   repeat (split; [vm_compute; reflexivity|]). vm_compute; reflexivity.
 Qed.
+
+(** The model the theorems above are about is the translation of src/protocol.rs (MessageType::from_u8, FrameHeader::validate) as it is now: the function
+    generated from the source by tools/gen_logic.py (Gen/ProtocolGen.v) equals, on every input, Model/Protocol.v from_u8 and hvalidate
+    (statement: Proofs/TieProtocol.v, [protocol_model_is_translation]). *)
+Require Copia.Proofs.TieProtocol.
+Theorem C20_model_is_translation_of_source : TieProtocol.protocol_model_is_translation.
+Proof. exact TieProtocol.protocol_model_is_translation_holds. Qed.
+Print Assumptions C20_model_is_translation_of_source.
